@@ -94,7 +94,18 @@ func (comp) Gen(r *kit.Rng, maxLen int, tier string) kit.Case {
 		case 6:
 			ops = append(ops, "length")
 		case 7:
-			ops = append(ops, "probe")
+			if r.Chance(25) {
+				// a lookup of k overlapped by a re-add of k (lands at the lookup's clock read)
+				k := r.Intn(u)
+				v := 0
+				if kind == "map" {
+					v = r.Intn(50)
+				}
+				exp[k] = now + ttl
+				ops = append(ops, fmt.Sprintf("gset %d %d", k, v))
+			} else {
+				ops = append(ops, "probe")
+			}
 		}
 	}
 	ops = append(ops, "probe")
@@ -108,9 +119,25 @@ func min64(a, b int64) int64 {
 	return b
 }
 
+// hookClock runs a one-shot hook at the next Now() call: the harness uses it to land another
+// operation inside a lookup, at the lookup's clock read.
+type hookClock struct {
+	clockwork.Clock
+	hook func()
+}
+
+func (h *hookClock) Now() time.Time {
+	if f := h.hook; f != nil {
+		h.hook = nil
+		f()
+	}
+	return h.Clock.Now()
+}
+
 type runner struct {
 	kind  string
 	u     int
+	hc    *hookClock
 	clock *clockwork.FakeClock
 	set   *generics.SetWithTTL[string]
 	m     *generics.MapWithTTL[string, int]
@@ -120,12 +147,13 @@ func (comp) NewCase(h []string) kit.Runner {
 	ttl, _ := strconv.ParseInt(kit.KV(h, "ttl"), 10, 64)
 	u, _ := strconv.Atoi(kit.KV(h, "universe"))
 	r := &runner{kind: kit.KV(h, "kind"), u: u, clock: clockwork.NewFakeClock()}
+	r.hc = &hookClock{Clock: r.clock}
 	if r.kind == "set" {
 		r.set = generics.NewSetWithTTL[string](time.Duration(ttl))
-		r.set.Clock = r.clock
+		r.set.Clock = r.hc
 	} else {
 		r.m = generics.NewMapWithTTL[string, int](time.Duration(ttl), nil)
-		r.m.Clock = r.clock
+		r.m.Clock = r.hc
 	}
 	return r
 }
@@ -188,6 +216,39 @@ func (r *runner) Do(op []string) (string, bool) {
 			r.m.Delete(key(arg(1)))
 		}
 		return "", false
+	case "gset":
+		// get k, with set k v started at the get's clock read; if the lookup holds its lock across
+		// the clock read the set simply completes right after it (bounded wait, never a deadlock)
+		done := make(chan struct{})
+		r.hc.hook = func() {
+			go func() {
+				defer close(done)
+				if r.kind == "set" {
+					r.set.Add(key(arg(1)))
+				} else {
+					r.m.Set(key(arg(1)), arg(2))
+				}
+			}()
+			select {
+			case <-done:
+			case <-time.After(100 * time.Millisecond):
+			}
+		}
+		v, ok := r.get(arg(1))
+		if r.hc.hook != nil { // the lookup never read the clock (key absent): do the set now
+			f := r.hc.hook
+			r.hc.hook = nil
+			f()
+		}
+		select {
+		case <-done:
+		case <-time.After(5 * time.Second):
+			return "hang", true
+		}
+		if !ok {
+			return "none", true
+		}
+		return fmt.Sprintf("some:%d", v), true
 	case "get":
 		v, ok := r.get(arg(1))
 		if !ok {
